@@ -633,7 +633,10 @@ class Planner:
                 self.info[o] = self.describe(self.node.slots[o])
             return r.choice(ok) if ok else None
         if k == 14:
-            if sh == ():
+            # only on a coefficient itself: for an indexed component of a non-mixed element
+            # ufl.exterior_derivative never returns (`while index != 0` over no sub-elements),
+            # which stalls the planner until its time-out
+            if a in M["coefs"]:
                 return self.call("ufl.exterior_derivative", A)
             return None
         if k == 15:
